@@ -16,6 +16,7 @@ func init() {
 		c17HeadersOnce(c)
 		c17CookieDefaults(c)
 		c17CorsTable(c)
+		c17CorsChain(c)
 		c17Preflight(c)
 		c17CorsFirst(c)
 	})
@@ -621,5 +622,128 @@ func c17CorsFirst(c *core.Ctx) {
 			}
 		}
 		c.Check(R, "engine.(*baseServer).ApplyMiddlewares/index0-first,error-stops", am.Pos(), first && stop, "the first registered middleware runs first and an error ends the chain")
+	}
+}
+
+// c17CorsChain — C17.5b: every configure step is part of the chain and its result is applied.
+func c17CorsChain(c *core.Ctx) {
+	const R = "C17.5b"
+	c.Rule(R, "CORS chain: on the OPTIONS edge CorsMiddleware runs configureOrigin, configureCredentials, configureMethods, configureAllowedHeaders, configureMaxAge, configureExposedHeaders and applyHeaders; on the other edge configureOrigin, configureCredentials, configureExposedHeaders and applyHeaders, in each case before next / the response; applyHeaders copies every collected header into ctx.ResponseHeaders and sets Vary from the collected list")
+	u := c.Fn(R, "types.CorsMiddleware")
+	if u == nil {
+		return
+	}
+	g := u.Graph()
+	// group calls by the statement (chain) they belong to
+	type chain struct {
+		names map[string]bool
+		loc   core.Loc
+		pos   token.Pos
+	}
+	var chains []*chain
+	for _, cl := range u.Calls() {
+		if cl.Name != "applyHeaders" {
+			continue
+		}
+		ch := &chain{names: map[string]bool{}, loc: cl.Loc, pos: cl.Pos()}
+		ast.Inspect(cl.Expr, func(n ast.Node) bool {
+			if ce, isC := n.(*ast.CallExpr); isC {
+				ch.names[calleeNameOf(ce)] = true
+			}
+			return true
+		})
+		chains = append(chains, ch)
+	}
+	want := map[bool][]string{
+		true:  {"configureOrigin", "configureCredentials", "configureMethods", "configureAllowedHeaders", "configureMaxAge", "configureExposedHeaders", "applyHeaders"},
+		false: {"configureOrigin", "configureCredentials", "configureExposedHeaders", "applyHeaders"},
+	}
+	isOptions := func(x *core.Unit, br core.Branch) int {
+		cmp, ok := x.BranchCmp(br)
+		if !ok {
+			return 0
+		}
+		isOpt := func(e ast.Expr) bool {
+			v, isV := core.ObjOf(x.Info(), e).(*types.Const)
+			return isV && v.Name() == "MethodOptions"
+		}
+		if isOpt(cmp.X) || (cmp.Y != nil && isOpt(cmp.Y)) || (cmp.Val != nil && trimQuotes(cmp.Val.ExactString()) == "OPTIONS") {
+			if cmp.Op == token.EQL {
+				return 1
+			}
+			if cmp.Op == token.NEQ {
+				return -1
+			}
+		}
+		return 0
+	}
+	seen := map[bool]bool{}
+	for _, ch := range chains {
+		pre := g.GuardedBy(ch.loc, isOptions)
+		seen[pre] = true
+		ok := true
+		var missing []string
+		for _, w := range want[pre] {
+			if !ch.names[w] {
+				ok = false
+				missing = append(missing, w)
+			}
+		}
+		// the chain precedes next / Write on its edge
+		for _, cl := range u.Calls() {
+			if (cl.Callee == nil && cl.Name == paramName(u, 2)) || cl.Key == "types.(*HttpContext).Write" {
+				if g.GuardedBy(cl.Loc, isOptions) == pre && !g.Dominates(ch.loc, cl.Loc) {
+					ok = false
+				}
+			}
+		}
+		c.Check(R, keyf("types.CorsMiddleware/chain(preflight=%v)", pre), ch.pos, ok, keyf("missing steps: %v", missing))
+	}
+	c.Check(R, "types.CorsMiddleware/both-edges-have-a-chain", u.Pos(), seen[true] && seen[false], "headers are computed and applied for preflight and for actual requests")
+	if ah := c.Fn(R, "types.(*cors).applyHeaders"); ah != nil {
+		info := ah.Info()
+		copies, vary := false, false
+		ast.Inspect(ah.Body, func(n ast.Node) bool {
+			if rs, isR := n.(*ast.RangeStmt); isR && fieldOf(info, rs.X) == "cors.headers" {
+				ast.Inspect(rs.Body, func(x ast.Node) bool {
+					if ce, isC := x.(*ast.CallExpr); isC && calleeNameOf(ce) == "Set" && len(ce.Args) == 2 {
+						if k, isK := ast.Unparen(ce.Args[0]).(*ast.SelectorExpr); isK && k.Sel.Name == "Key" {
+							if v, isV := ast.Unparen(ce.Args[1]).(*ast.SelectorExpr); isV && v.Sel.Name == "Value" {
+								copies = true
+							}
+						}
+					}
+					return true
+				})
+			}
+			return true
+		})
+		g2 := ah.Graph()
+		for _, cl := range ah.Calls() {
+			if cl.Name == "Set" {
+				if k, _ := core.ConstString(info, cl.Arg(0)); k == "Vary" {
+					// the set on the non-* edge is guarded by len(varys) > 0 and built from varys
+					if g2.GuardedBy(cl.Loc, func(x *core.Unit, br core.Branch) int {
+						cmp, ok := x.BranchCmp(br)
+						if !ok {
+							return 0
+						}
+						ce, isC := ast.Unparen(cmp.X).(*ast.CallExpr)
+						if isC && calleeNameOf(ce) == "len" && len(ce.Args) == 1 && fieldOf(x.Info(), ce.Args[0]) == "cors.varys" {
+							if e, ok := lenPositive(cmp); ok {
+								if e == 0 {
+									return 1
+								}
+								return -1
+							}
+						}
+						return 0
+					}) {
+						vary = true
+					}
+				}
+			}
+		}
+		c.Check(R, "types.(*cors).applyHeaders/copies-headers+sets-Vary", ah.Pos(), copies && vary, keyf("every Kv copied to ResponseHeaders: %v; Vary set from the collected list when non-empty: %v", copies, vary))
 	}
 }
